@@ -67,6 +67,8 @@ class Walk:
             v = self.env.get(e["path"]["res"]["id"])
             if isinstance(v, tuple) and v and v[0] == "#idx":
                 return ("idx", v[1], 0)
+            if isinstance(v, tuple) and v and v[0] == "#sym":
+                return v[1]       # parameter of an inlined helper bound to the caller's index expression
         if e.get("k") == "bin" and e["op"] in ("Add", "Sub"):
             l, r = self.sym(e["l"]), self.sym(e["r"])
             sign = 1 if e["op"] == "Add" else -1
@@ -200,19 +202,7 @@ class Walk:
         if it.get("k") == "call" and it["args"]:
             it = hir_strip(it["args"][0])
         self.walk_args_only(it)
-        # recognise P.iter().enumerate() / P.iter()
-        enumerate_ = False
-        base = it
-        if base.get("k") == "mcall" and base["name"] == "enumerate":
-            enumerate_ = True
-            base = hir_strip(base["recv"])
-        rev = False
-        if base.get("k") == "mcall" and base["name"] == "rev":
-            rev = True
-            base = hir_strip(base["recv"])
-        lst = None
-        if base.get("k") == "mcall" and base["name"] in ("iter", "iter_mut"):
-            lst = self.place(base["recv"])
+        lst, enumerate_, rev = self.iter_source(it)
         # find the loop and its Some(..) arm
         arm0 = e["arms"][0]
         loop = hir_strip(arm0["body"])
@@ -229,18 +219,42 @@ class Walk:
             if p.get("k") == "struct" and p["fields"]:
                 sub = p["fields"][0]["pat"]
                 saved = dict(self.env)
-                if lst is not None and not rev:
-                    if enumerate_ and sub.get("k") == "tuple" and len(sub["pats"]) == 2:
-                        if sub["pats"][0].get("k") == "bind":
-                            self.env[sub["pats"][0]["id"]] = ("#idx", lst)
-                        if sub["pats"][1].get("k") == "bind":
-                            self.env[sub["pats"][1]["id"]] = ("#elem", lst)
-                    elif not enumerate_ and sub.get("k") == "bind":
-                        self.env[sub["id"]] = ("#elem", lst)
+                self.bind_element(sub, lst, enumerate_, rev)
                 snap = self.snapshot()
                 self.walk(a["body"])
                 self.require_same(snap, a["body"].get("ln", e["ln"]), "loop body")
                 self.env = saved
+
+    def iter_source(self, it):
+        """recognise P.iter().enumerate() / P.iter(): (list place | None, enumerated?, reversed?)"""
+        enumerate_ = False
+        base = hir_strip(it)
+        if base.get("k") == "mcall" and base["name"] == "enumerate":
+            enumerate_ = True
+            base = hir_strip(base["recv"])
+        rev = False
+        if base.get("k") == "mcall" and base["name"] == "rev":
+            rev = True
+            base = hir_strip(base["recv"])
+        lst = None
+        if base.get("k") == "mcall" and base["name"] in ("iter", "iter_mut"):
+            lst = self.place(base["recv"])
+        return lst, enumerate_, rev
+
+    def bind_element(self, sub, lst, enumerate_, rev):
+        """bind the pattern of one element of an iteration over list place `lst`"""
+        if lst is None or rev or sub is None:
+            return
+        if enumerate_ and sub.get("k") == "tuple" and len(sub["pats"]) == 2:
+            if sub["pats"][0].get("k") == "bind":
+                self.env[sub["pats"][0]["id"]] = ("#idx", lst)
+            if sub["pats"][1].get("k") == "bind":
+                self.env[sub["pats"][1]["id"]] = ("#elem", lst)
+        elif not enumerate_ and sub.get("k") == "bind":
+            self.env[sub["id"]] = ("#elem", lst)
+
+    # iterator consumers that run their closure once per element, in order, like the body of a `for`
+    PER_ELEMENT = ("try_for_each", "for_each")
 
     def walk_args_only(self, e):
         for x in ([e.get("recv")] if e.get("k") == "mcall" else []) + list(e.get("args", [])):
@@ -257,22 +271,53 @@ class Walk:
 
     BOOKKEEPING = None
 
+    KNOWN = (PUSH, POP, PROCESS, SUBEXPR, SCOPE_BEGIN, SCOPE_END, COMPILE_BEGIN, COMPILE_END, "compiler::Compiler::encode_if_then")
+    MAX_INLINE_DEPTH = 8
+
+    def moves_bookkeeping(self, name, _seen=None):
+        """does the Compiler method `name` - itself or through other Compiler methods it calls - move the sub-index stack
+        or compile cards (push_subindex / pop_subindex / process_card / compile_subexpr)? (cached per fact base)"""
+        cache = self.F.__dict__.setdefault("_cw_movers", {})
+        if name in cache:
+            return cache[name]
+        seen = set() if _seen is None else _seen
+        if name in seen:
+            return False
+        seen.add(name)
+        g = self.F.fn(name, required=False)
+        if g is None or not g.hir or not name.startswith("compiler::Compiler::"):
+            cache[name] = False
+            return False
+        from cao.facts import hir_walk
+        r = False
+        for y in hir_walk(g.hir["body"]):
+            if y.get("k") not in ("call", "mcall"):
+                continue
+            cs_ = hir_callee(y)
+            if any(c in (PUSH, POP, PROCESS, SUBEXPR) for c in cs_):
+                r = True
+                break
+            if any(c.startswith("compiler::Compiler::") and c not in self.KNOWN and self.moves_bookkeeping(c, seen) for c in cs_):
+                r = True
+                break
+        if _seen is None or r:
+            cache[name] = r       # a negative answer inside a cycle is only final at the top of the search
+        return r
+
     def inlineable(self, names):
-        """a Compiler method (other than the ones modelled directly) whose own body moves the bookkeeping: it is walked in
-        place of the call, its closure parameters bound to the closures passed (inlining bound: 2 levels)"""
-        if getattr(self, "_inline_depth", 0) >= 2:
+        """a Compiler method (other than the ones modelled directly) that - itself or through the Compiler methods it
+        calls - moves the bookkeeping or compiles cards: it is walked in place of the call, its parameters bound to the
+        call's arguments (no function is inlined inside itself; nesting bound MAX_INLINE_DEPTH)"""
+        stack = getattr(self, "_inline_stack", [])
+        if len(stack) >= self.MAX_INLINE_DEPTH:
             return None
-        known = (PUSH, POP, PROCESS, SUBEXPR, SCOPE_BEGIN, SCOPE_END, COMPILE_BEGIN, COMPILE_END, "compiler::Compiler::encode_if_then")
         for n in names:
-            if not n.startswith("compiler::Compiler::") or n in known:
+            if not n.startswith("compiler::Compiler::") or n in self.KNOWN:
                 continue
             g = self.F.fn(n, required=False)
-            if g is None or not g.hir or g is self.fn:
+            if g is None or not g.hir or g is self.fn or n in stack:
                 continue
-            from cao.facts import hir_walk
-            moves = [y for y in hir_walk(g.hir["body"]) if y.get("k") in ("call", "mcall") and
-                     any(c in (PUSH, POP) for c in hir_callee(y))]
-            if moves:
+            if self.moves_bookkeeping(n):
                 return g
         return None
 
@@ -282,25 +327,34 @@ class Walk:
         if e["k"] == "mcall" and len(params) == len(args) + 1:
             params = params[1:]
         saved_env = dict(self.env)
+        binds = {}
         for p_, a in zip(params, args):
             if p_.get("k") != "bind":
                 continue
             a_ = hir_strip(a)
             if a_.get("k") == "closure":
-                self.env[p_["id"]] = ("#closure", a_)
+                binds[p_["id"]] = ("#closure", a_)
+                continue
+            pl = self.place(a)
+            el = self.elem_of(a)
+            if pl is not None:
+                binds[p_["id"]] = pl
+            elif el is not None:
+                binds[p_["id"]] = ("#elem", el)
             else:
-                pl = self.place(a)
-                if pl is not None:
-                    self.env[p_["id"]] = pl
-                else:
-                    el = self.elem_of(a)
-                    if el is not None:
-                        self.env[p_["id"]] = ("#elem", el)
-        self._inline_depth = getattr(self, "_inline_depth", 0) + 1
+                # an index argument (literal, enumerate index +- k, len of a list place): inside the helper the
+                # parameter stands for that symbolic value; an unrecognised expression stays unbound (sym -> '?')
+                sv = self.sym(a)
+                binds[p_["id"]] = None if isinstance(sv, tuple) and sv[0] == "?" else ("#sym", sv)
+        for pid, v in binds.items():       # arguments are evaluated in the caller's environment, then bound
+            self.env.pop(pid, None)
+            if v is not None:
+                self.env[pid] = v
+        self._inline_stack = getattr(self, "_inline_stack", []) + [g.short]
         try:
             self.walk(g.hir["body"])
         finally:
-            self._inline_depth -= 1
+            self._inline_stack = self._inline_stack[:-1]
             self.env = saved_env
 
     def call(self, e):
@@ -326,6 +380,19 @@ class Walk:
             return
         closure_args = [hir_strip(a) for a in args if hir_strip(a).get("k") == "closure"]
         plain = [a for a in args if hir_strip(a).get("k") != "closure"]
+        if e["k"] == "mcall" and e["name"] in self.PER_ELEMENT and len(closure_args) == 1 and not plain and \
+                any(n.startswith(("std::iter::", "core::iter::")) for n in names):
+            # ITER.try_for_each(|PAT| body) == for PAT in ITER { body? }
+            lst, enumerate_, rev = self.iter_source(e["recv"])
+            c = closure_args[0]
+            saved = dict(self.env)
+            if len(c["params"]) == 1:
+                self.bind_element(c["params"][0], lst, enumerate_, rev)
+            snap = self.snapshot()
+            self.walk(c["body"])
+            self.require_same(snap, c.get("ln", e["ln"]), "loop body")
+            self.env = saved
+            return
         if e["k"] == "mcall":
             self.walk(e["recv"])
         for a in plain:
@@ -365,6 +432,9 @@ class Walk:
         elif SUBEXPR in names:
             self.subexpr(args[0], ln)
         elif any(n.startswith("compiler::Compiler::") and n != "compiler::Compiler::encode_if_then" for n in names):
+            if any(n.startswith("compiler::Compiler::") and n not in self.KNOWN and self.moves_bookkeeping(n) for n in names):
+                # a helper that compiles cards / moves the index but was not walked (recursion, nesting bound): unknown effect
+                self.events.append(("unknown_subexpr", None, tuple(self.stack), ln))
             # any other Compiler method may emit instructions / raise located errors on behalf of the card being compiled
             self.events.append(("emit", [n for n in names if n.startswith("compiler::Compiler::")][0], tuple(self.stack), ln, self.scope))
         if "compiler::Compiler::encode_if_then" in names:
